@@ -155,10 +155,50 @@ def float_enum_derived(ctx):
               'trigger_setter does not announce the float parameter', ts)
 
 
+@rule('C18.R7', min_instances=2)
+def linked_parameters_keep_their_flags_on_the_instance(ctx):
+    """shared with C09.R2g: StructParam / FloatEnumParam reach the module instance through copy(); the argument-less constructor
+    call made there must not turn the keyword default readonly=False into an own property (the struct would be writable on
+    the instance while its member parameters, which took the flag at class level, stay read-only)"""
+    from sa.rules import c09
+    c09.copy_keeps_every_declared_property(ctx)
+
+
 def _deactivations(fi):
     """calls of a deactivation callback: a local taken out of self.inputCallbacks (loop over .values(), .get(...))"""
     return [c for c in calls_in(fi.node) if isinstance(c.func, ast.Name) and
             any(v is not None and 'inputCallbacks' in src(v) for v, st, how in local_assigns(fi.node, c.func.id))]
+
+
+@rule('C18.R4d', min_instances=1)
+def a_controller_is_switched_off_only_in_a_complete_handover(ctx):
+    """HasControlledBy: inputCallbacks is keyed by the NAME of the controlling module.  A function that looks a callback up by
+    name and calls it switches that controller off - which is only half of a hand-over: the same function has to record the
+    new owner (store controlled_by / self_controlled), otherwise the output still names a controller that is no longer
+    controlling.  (update_target looks up by the enum MEMBER today, which never matches a name key: that branch is inert.)"""
+    m = ctx.m
+    ci = m.classes.get('frappy.mixins.HasControlledBy')
+    if ci is None:
+        raise AnchorMissing('frappy.mixins.HasControlledBy not found')
+    n = 0
+    for f in ci.methods.values():
+        for c in _deactivations(f):
+            gets = [v for v, st, how in local_assigns(f.node, c.func.id) if isinstance(v, ast.Call) and call_attr(v) == 'get' and v.args]
+            for g in gets:
+                n += 1
+                ctx.analysed(f)
+                key = g.args[0]
+                by_name = (isinstance(key, ast.Attribute) and key.attr == 'name') or (isinstance(key, ast.Call) and dotted(key.func) == 'str') or \
+                    (isinstance(key, ast.Name) and key.id in [a.arg for a in f.node.args.args])
+                if not by_name:
+                    ctx.ok(f'{f.qualname}:controller switched off only in a complete hand-over', g, f'`{src(g)}`: looked up by the enum member, never matches a name key', f)
+                    continue
+                records = any(t.attr == 'controlled_by' for t, v, s2 in attr_stores(f.node)) or any(call_attr(x) == 'self_controlled' for x in calls_in(f.node))
+                ctx.check(records, f'{f.qualname}:controller switched off only in a complete hand-over', c, 'the new owner is recorded in the same function',
+                          f'`{src(g)}` finds the callback of the controlling module by its name and `{src(c)}` switches that controller off, but {f.name} does not '
+                          'record a new owner: controlled_by keeps naming a module whose control loop is off - nobody controls the output', f)
+    if not n:
+        raise AnchorMissing('lookup of a deactivation callback by .get(...) not found in HasControlledBy')
 
 
 @rule('C18.R4', min_instances=3)
